@@ -8,4 +8,4 @@ From Scenic Require Import C18.Codec C18.Replay.
 Extraction Language OCaml.
 Extraction "model.ml" write_int read_int write_value read_value enc_sample dec_sample
   write_header read_header values_have_diverged read_bytes write_bytes
-  simulate prog_of_script oracle_of diverged_val ieee read_replay_header record_two_shared_memo.
+  simulate prog_of_script oracle_of diverged_val ieee read_replay_header record_two_shared_memo code_view view condition_to.
